@@ -1219,6 +1219,12 @@ func (c *Compiler) writeCopy(node *node, l, r string, depth int) error {
 		}
 		c.wl(c.fmtVd(node, l, depth), "[", lk, "]=", pfx, lv)
 		c.wl("}")
+		if node.ptr && depth > 0 {
+			// A pointer to an empty map is not a nil pointer.
+			c.wl("}else if ", l, "==nil{")
+			c.wl(lb1, ":=make(", c.fmtT(node), ")")
+			c.wl(l, "=&", lb1)
+		}
 		c.wl("}")
 	case typeSlice:
 		if node.typn == "[]byte" {
@@ -1268,6 +1274,12 @@ func (c *Compiler) writeCopy(node *node, l, r string, depth int) error {
 				c.wl("*", l, "=", lb)
 			} else {
 				c.wl(l, "=", c.fmtP(node, lb, depth))
+			}
+			if node.ptr && depth > 0 {
+				// A pointer to an empty slice is not a nil pointer.
+				c.wl("}else if ", l, "==nil{")
+				c.wl(lb, ":=make(", c.fmtT(node), ",0)")
+				c.wl(l, "=&", lb)
 			}
 			c.wl("}")
 		}
